@@ -310,6 +310,7 @@ func c03Oracle(c ev.Case) Res {
 func TestC03(t *testing.T) {
 	c := NewCheck(t, "C03", "cases are derivations of the calibrated attack grammar: kept (context,payload,tail) triple x separator assignment (13 uniform, 8 hash-determined mixed) x case mode (lower, upper, alternating, 2 hash-determined masks): this finite set is exactly the set verified at calibration and is enumerated completely; on top, rapid draws per-letter case masks; every derivation is an attack, hence non-trivial; oracle: IsSQLi(a) is true; distinct by construction (random part deduplicated by FNV-64)")
 	c.rec.Assume = []string{"grammars/sqli.json: triples calibrated on the repaired pinned tree (never re-calibrated by the check)", "random case masks are sound because no letter of the grammar is in a case-exempt position (C10)"}
+	c.noMinimise = true
 	defer c.Finish()
 	kt, err := keptSQLTriples()
 	if err != nil || len(kt) == 0 {
